@@ -179,4 +179,11 @@ def DBuf.write (b : DBuf) : Bytes → DBuf × Bool
     | some b' => b'.write cs
     | none => (b, false)
 
+/-- `putOnWire`: the pieces of a response (status line, each header line, each cookie line, Content-Length, blank line, body) are
+    written one after the other, and the stream state is checked after each (`OUT(...)`): the first piece that does not fit ends
+    the attempt.  `false` = refused. -/
+def DBuf.writePieces (b : DBuf) : List Bytes → DBuf × Bool
+  | [] => (b, true)
+  | p :: ps => if (b.write p).2 then (b.write p).1.writePieces ps else ((b.write p).1, false)
+
 end Pistache.Emit
